@@ -107,6 +107,12 @@ type structInfo struct {
 }
 
 func newCtx(prog *Program, mode Mode) *Ctx {
+	c := newCtx0(prog, mode)
+	wrapInQuant = func() bool { return c.inQuant > 0 }
+	return c
+}
+
+func newCtx0(prog *Program, mode Mode) *Ctx {
 	return &Ctx{prog: prog, mode: mode, structs: map[string]*structInfo{}, regions: map[string]string{},
 		strConsts: map[string]string{}, funDecls: map[string]bool{}, notes: map[string]bool{}, curBlock: -1}
 }
@@ -585,6 +591,17 @@ func (c *Ctx) buildPreamble() string {
 	b.WriteString("(declare-datatypes (" + strings.Join(names, " ") + ") (" + strings.Join(bodies, "\n  ") + "))\n")
 	b.WriteString("(declare-fun gstr_len (Str) Int)\n")
 	b.WriteString("(declare-fun gstr_at (Str Int) " + c.intSort(8) + ")\n")
+	for _, w := range []int{8, 16, 32, 64} {
+		for _, signed := range []bool{true, false} {
+			lo, hi := intRange(w, signed)
+			sg := "u"
+			if signed {
+				sg = "s"
+			}
+			m := pow2(w).String()
+			b.WriteString(fmt.Sprintf("(define-fun wrap1_%s%d ((x Int)) Int (ite (> x %s) (- x %s) (ite (< x %s) (+ x %s) x)))\n", sg, w, intLit(hi), m, intLit(lo), m))
+		}
+	}
 	b.WriteString("(define-fun wf_slice ((s Slice) (a Int)) Bool (and (<= 0 (s.ref s)) (<= (s.ref s) a) (<= 0 (s.off s)) (<= 0 (s.len s)) (<= (s.len s) (s.cap s)) (<= (+ (s.off s) (s.cap s)) " + maxObj + ") (=> (= (s.ref s) 0) (= (s.cap s) 0))))\n")
 	// string literals
 	var lits []string
